@@ -40,6 +40,9 @@ def lit(v):
         return "({ " + ", ".join(lit(e) for e in v[1]) + " })"
     if v[0] == "f":
         return repr(float(v[1]))
+    if v[0] == "m":
+        ent = ["%s : %s" % (lit(k), lit(x)) for k, x in v[1]]
+        return "([ " + ",\n    ".join(", ".join(ent[i:i + 8]) for i in range(0, len(ent), 8)) + " ])"
     raise ValueError(v)
 
 
@@ -182,6 +185,8 @@ def to_tagged(j):
         return R.S([b for b in j.encode("utf-8", "surrogateescape")])
     if isinstance(j, list):
         return R.A([to_tagged(e) for e in j])
+    if isinstance(j, dict) and list(j) == ["m"]:
+        return R.Mp([(to_tagged(k), to_tagged(v)) for k, v in j["m"]])
     return ("?", json.dumps(j))
 
 
@@ -235,7 +240,62 @@ def extreme_programs(rnd, tier):
     return progs
 
 
-def shape_functions(tier):
+def mapping_groups(grp, mapref):
+    """mappings: l + r / l += r / entry-by-entry assignment, m[k], sizeof, delete + put; expected values printed by TLC from
+    spec/lpcsem/LpcMaps.tla (mapref: list of records), cross-checked with the transcription"""
+    pool = keys = None
+    for r in mapref:
+        if r["k"] == "pool":
+            pool = [R.Mp([(R.from_json(e[0]), R.from_json(e[1])) for e in q]) for q in r["v"]["pool"]]
+            keys = [R.from_json(k) for k in r["v"]["keys"]]
+    ndis = 0
+    for r in mapref:
+        k = r["k"]
+        if k == "pool":
+            continue
+        exp = R.from_json(r["v"])
+        if k == "add":
+            l, rr = pool[r["l"] - 1], pool[r["r"] - 1]
+            mine = R.Bin("add", l, rr)
+            L, RR = lit(l), lit(rr)
+            big = len(l[1]) > 8 or len(rr[1]) > 8
+            sps = [("plus", "mixed @F() { mapping l = %s; mapping r = %s; return l + r; }" % (L, RR)),
+                   ("mixedv", "mixed @F() { mixed l = %s; mixed r = %s; return l + r; }" % (L, RR)),
+                   ("addeq", "mixed @F() { mapping x = %s; x += %s; return x; }" % (L, RR)),
+                   ("addeqv", "mixed @F() { mapping x = %s; mapping r = %s; x += r; return x; }" % (L, RR)),
+                   ("assign", "mixed @F() { mapping x = %s + ([ ]); mapping r = %s; mixed k; foreach (k in keys(r)) x[k] = r[k]; return x; }" % (L, RR)),
+                   ("global", "mixed @F() { g0 = %s; g1 = %s; return g0 + g1; }" % (L, RR)),
+                   ("intact", "mixed @F() { mapping l = %s; mapping r = %s; mapping s = l + r; if (sizeof(l) != %d || sizeof(r) != %d) return -1; return s; }" % (L, RR, len(l[1]), len(rr[1])))]
+            if not big:
+                sps.append(("const", "mixed @F() { return %s + %s; }" % (L, RR)))
+        elif k == "idx":
+            m, key = pool[r["l"] - 1], keys[r["r"] - 1]
+            mine = R.Index(m, key, False)
+            sps = [("var", "mixed @F() { mapping m = %s; return m[%s]; }" % (lit(m), lit(key))),
+                   ("mixedv", "mixed @F() { mixed m = %s; mixed k = %s; return m[k]; }" % (lit(m), lit(key))),
+                   ("global", "mixed @F() { g0 = %s; return g0[%s]; }" % (lit(m), lit(key))),
+                   ("scan", "mixed @F() { mapping m = %s; mixed k, v; foreach (k, v in m) if (k == %s) return v; return 0; }" % (lit(m), lit(key)))]
+        elif k == "size":
+            m = pool[r["l"] - 1]
+            mine = R.Un("sizeof", m)
+            sps = [("sizeof", "mixed @F() { mapping m = %s; return sizeof(m); }" % lit(m)),
+                   ("keys", "mixed @F() { mapping m = %s; return sizeof(keys(m)); }" % lit(m)),
+                   ("values", "mixed @F() { mixed m = %s; return sizeof(values(m)); }" % lit(m)),
+                   ("count", "mixed @F() { mapping m = %s; mixed k; int n; foreach (k in keys(m)) n++; return n; }" % lit(m))]
+        else:   # delput
+            m, key = pool[r["l"] - 1], keys[r["r"] - 1]
+            mine = R.MapPut(R.MapDel(m[1], key)[1], key, R.I(99))
+            sps = [("delput", "mixed @F() { mapping m = %s; map_delete(m, %s); m[%s] = 99; return m; }" % (lit(m), lit(key), lit(key))),
+                   ("put", "mixed @F() { mapping m = %s; m[%s] = 99; return m; }" % (lit(m), lit(key))),
+                   ("plus", "mixed @F() { mapping m = %s; return m + ([ %s : 99 ]); }" % (lit(m), lit(key))),
+                   ("addeq", "mixed @F() { mixed m = %s; m += ([ %s : 99 ]); return m; }" % (lit(m), lit(key)))]
+        if R.canon(mine) != R.canon(exp):
+            ndis += 1
+        grp(exp, sps)
+    return ndis
+
+
+def shape_functions(tier, mapref=None):
     """statement shapes: -> list of (group id, expected tagged value or None, [(spelling, source)]); the spellings of a
     group must all return the same value (and the expected one where the reference gives it)"""
     groups = []
@@ -246,6 +306,10 @@ def shape_functions(tier):
         k = gid[0]
         groups.append((k, expect, [(n, s.replace("@F", "s%d_%s" % (k, n))) for n, s in sps]))
 
+    ndis = [0]
+    if mapref:
+        ndis[0] = mapping_groups(grp, mapref)
+    shape_functions.mapref_disagreements = ndis[0]
     # ---- loop forms: sum of f(i) for i in 0..n-1
     for n in (0, 1, 2, 5, 300):
         for body, f in (("acc += i", lambda i: i), ("acc = acc * 3 + i", None), ("acc ^= (i << 3)", None)):
@@ -397,7 +461,20 @@ def run(tier, work):
         fn = "c03/f%d" % (b // CH)
         open(os.path.join(mdir, fn + ".c"), "w").write(src)
         files.append((fn, order, "p"))
-    groups = shape_functions(tier)
+    # the mapping part of LpcSem, evaluated by TLC over a pool of mappings
+    mapref, _ = vlib.generate(SPEC, "LpcMaps", "LpcMaps.cfg", work, "p2m", workers=1, timeout=600)
+    seenm, mr = set(), []
+    for r in mapref:
+        k = json.dumps(r, sort_keys=True)
+        if k not in seenm:
+            seenm.add(k)
+            mr.append(r)
+    if tier == "quick":        # every l + r, a seeded third of the rest
+        mr = [r for r in mr if r["k"] in ("add", "pool", "size")] + rnd.sample([r for r in mr if r["k"] in ("idx", "delput")], 70)
+    groups = shape_functions(tier, mr)
+    if shape_functions.mapref_disagreements:
+        raise vlib.Broken("checks/lpcref.py disagrees with spec/lpcsem/LpcSem.tla on %d mapping evaluations" % shape_functions.mapref_disagreements)
+    print("TLC LpcMaps: %d mapping evaluations valued by TLC" % (len(mr) - 1))
     for b in range(0, len(groups), CH):
         chunk = groups[b:b + CH]
         src = [HEADER]
